@@ -15,6 +15,7 @@ ID = "C06"
 LEVEL = "exploration"
 CONTRACTS = True  # icontract postconditions on AlignedStream.read/peek/seek fire during this workload too
 STEP_BUDGET = 3_000_000  # line events per case; a case that exceeds it is reported as non-termination
+HANDLE_CLOSE_CHECK = True
 ANCHOR_FILES = ["dissect/hypervisor/disk/hdd.py"]
 RULE = (
     "HDS images written by an independent writer from a content model: v1 (BAT in sectors, also at sector "
